@@ -298,3 +298,47 @@ package tds
 //@   loop 0:
 //@     invariant [n8] n == 8 && 8 <= totalBytes && totalBytes - 8 <= len(packet.Data)
 //@     invariant [ctx] nonnil(timeoutCtx) && cancel != nil
+
+//@ # ---------------------------------------------------------------------
+//@ # PacketQueue (C15): a byte FIFO over packets. Abstract view = the BytesChannel
+//@ # ghosts of the same object ($in stream, $r read position, $end bytes enqueued);
+//@ # every enqueued packet remembers the absolute stream offset of its first body
+//@ # byte in the ghost field Packet.$pos.
+//@ ghost field Packet.$pos int
+//@ # $rx marks a queue used on the receive side (read discipline); the transmit side
+//@ # (WriteBytes) has its own discipline, see C01.
+//@ ghost field PacketQueue.$rx bool
+//@ pred pqpos(q *PacketQueue) { q.indexPacket < len(q.queue) ? q.queue[q.indexPacket].$pos + q.indexData : q.$end }
+//@ pred pqvalid(q *PacketQueue, ip int, id int) { 0 <= ip && ip <= len(q.queue) && (ip < len(q.queue) ==> 0 <= id && id <= len(q.queue[ip].Data)) && (ip == len(q.queue) ==> id == 0) }
+//@ pred pqs1(q *PacketQueue) { forall j int :: 0 <= j && j < len(q.queue) ==> q.queue[j] != nil && allocated(q.queue[j]) && 0 <= q.queue[j].$pos && q.queue[j].$pos + len(q.queue[j].Data) <= q.$end }
+//@ pred pqs2(q *PacketQueue) { 0 <= q.$end }
+//@ pred pqs3(q *PacketQueue) { forall j int :: 0 <= j && j < len(q.queue) ==> q.queue[j].$pos + len(q.queue[j].Data) == (j + 1 < len(q.queue) ? q.queue[j+1].$pos : q.$end) }
+//@ pred pqcontent(q *PacketQueue) { forall j int, i int :: 0 <= j && j < len(q.queue) && 0 <= i && i < len(q.queue[j].Data) ==> q.queue[j].Data[i] == q.$in[q.queue[j].$pos + i] }
+//@ pred pqwf(q *PacketQueue) { pqs1(q) && pqs2(q) && pqs3(q) && pqcontent(q) && pqvalid(q, q.indexPacket, q.indexData) && q.$r == pqpos(q) && 0 <= q.$w }
+//@ typeinv PacketQueue { [s1] this.$rx ==> pqs1(this) }
+//@ typeinv PacketQueue { [s2] this.$rx ==> pqs2(this) }
+//@ typeinv PacketQueue { [s3] this.$rx ==> pqs3(this) }
+//@ typeinv PacketQueue { [content] this.$rx ==> pqcontent(this) }
+//@ typeinv PacketQueue { [valid] this.$rx ==> pqvalid(this, this.indexPacket, this.indexData) }
+//@ typeinv PacketQueue { [pos] this.$rx ==> this.$r == pqpos(this) && 0 <= this.$w }
+
+//@ func (*PacketQueue).Position returns (ip, id)
+//@   modifies
+//@   ensures [same] ip == queue.indexPacket && id == queue.indexData
+//@ func (*PacketQueue).SetPosition
+//@   requires [valid] queue.$rx ==> pqvalid(queue, indexPacket, indexData)
+//@   modifies queue.indexPacket, queue.indexData, queue.$r
+//@   ghost-update at exit: queue.$r := pqpos(queue)
+//@   ensures [set] queue.indexPacket == indexPacket && queue.indexData == indexData
+//@ func (*PacketQueue).AddPacket
+//@   requires [nonnil] packet != nil
+//@   requires [not-queued] forall j int :: 0 <= j && j < len(queue.queue) ==> queue.queue[j] != packet
+//@   modifies queue.queue, queue.recvEOM, queue.$in, queue.$end, queue.$r, packet.$pos, all elems *tds.Packet
+//@   ghost-update at exit: queue.$in := seqwrite(old(queue.$in), old(queue.$end), packet.Data)
+//@   ghost-update at exit: packet.$pos := old(queue.$end)
+//@   ghost-update at exit: queue.$end := old(queue.$end) + len(packet.Data)
+//@   ghost-update at exit: queue.$r := pqpos(queue)
+//@   ensures [appended] queue.$end == old(queue.$end) + len(packet.Data) && (queue.$rx ==> queue.$r == old(queue.$r))
+//@   ensures [eom] queue.recvEOM == (old(queue.recvEOM) || packet.Header.Status % 2 == 1)
+//@   ensures [content] forall k int :: 0 <= k && k < len(packet.Data) ==> queue.$in[old(queue.$end) + k] == packet.Data[k]
+//@   ensures [prefix] forall k int :: k < old(queue.$end) ==> queue.$in[k] == old(queue.$in[k])
